@@ -38,6 +38,15 @@ example : ∃ fs, Reach ⟨fs, some exMemAfter, exLogAfter⟩ ∧ exMemAfter.par
   let ⟨fs, h⟩ := ex_history
   ⟨fs, h, by decide, by decide, by decide⟩
 
+/-- non-vacuity of "any interleaving": two partition stores of one `persist` phase whose effects alternate step by step
+    form a `PoolTrace` (the theorems quantify over all of these, not only over the sequential schedule used above). -/
+example : PoolTrace [storeTask (.part "t" 0) (.part ["1"]), storeTask (.part "u" 0) (.part ["2"])]
+    [.mkdir (.part "t" 0), .mkdir (.part "u" 0), .create (.part "t" 0), .create (.part "u" 0),
+     .write (.part "t" 0) (.part ["1"]), .write (.part "u" 0) (.part ["2"]), .sync (.part "u" 0), .sync (.part "t" 0),
+     .rename (.part "u" 0), .rename (.part "t" 0)] :=
+  ⟨storeEffs (.part "u" 0) (.part ["2"]), ⟨[], rfl, Shuffle.append _ []⟩,
+    .left (.right (.left (.right (.left (.right (.right (.left (.right (.left .nil)))))))))⟩
+
 /-- **Recovery is possible** in every reachable world (in particular after every crash prefix, also of a recovery): the
     model's `recover` is a total function and returns `ok` — no fault on the opening thread (`panic`), none in a pool job
     (`hang`) — whatever the order of the directory listing; and the content of every table is exactly the log: nothing
